@@ -32,3 +32,38 @@ void h_decomp(void) {
   VASSERT(err <= tol, "printed digits within the stated accuracy of the value");
   VWITNESS("any");
 }
+
+/* ---- C12 [K2]: doc.set(x); serializeJson(doc): the integral and decimal digits handed to the (cut) digit writers denote a
+ * value within 1e-9*max(1,x) of a double x, within 1e-6*max(1,x) of a float x. FLOATREP selects doubles that are / are not
+ * exactly representable as float (the library stores the former as float). */
+static unsigned g_wi_calls, g_wd_calls; static uint32_t g_int, g_dec; static int g_places;
+void CUT_WI32(struct S_AJ__detail__TextFormatter* self, uint32_t v) { g_wi_calls++; g_int = v; }
+void CUT_WDEC(struct S_AJ__detail__TextFormatter* self, uint32_t v, int8_t w) { g_wd_calls++; g_dec = v; g_places = w; }
+/* visitor cases that a numeric document never reaches: cut so that symbolic execution does not wander into them, and ASSERTED unreachable */
+uint64_t CUT_VOBJ(struct S_AJ__detail__JsonSerializer* self, struct S_AJ__detail__ObjectData* o) { VASSERT(0, "object visitor unreachable for a numeric document"); return 0; }
+uint64_t CUT_VARR(struct S_AJ__detail__JsonSerializer* self, struct S_AJ__detail__ArrayData* a) { VASSERT(0, "array visitor unreachable for a numeric document"); return 0; }
+void CUT_WSTR2(struct S_AJ__detail__TextFormatter* self, uint8_t* s, uint64_t n) { VASSERT(0, "string writer unreachable for a numeric document"); }
+#ifndef FLOATREP
+#define FLOATREP 0
+#endif
+static void check_digits(double x, double rel) {
+  VOBS(g_norm_calls); VOBS(g_wi_calls); VOBS(g_wd_calls);
+  VASSERT(g_norm_calls == 1 && g_wi_calls == 1 && g_wd_calls <= 1, "one integral part, at most one decimal part, no exponent in this range");
+  int dp = g_wd_calls ? g_places : 0; uint32_t dec = g_wd_calls ? g_dec : 0;
+  VASSERT(dp >= 0 && dp <= 9 && dec < P10[dp], "the decimal part fits its width");
+  double approx = (double)g_int + (double)dec / (double)P10[dp];
+  double err = approx > x ? approx - x : x - approx;
+  VOBS(g_int); VOBS(dec); VOBS((uint32_t)dp);
+  VASSERT(err <= rel * (x > 1.0 ? x : 1.0), "the printed literal is within the stated accuracy of the value that was given");
+}
+void h_ser_f64(void) {
+  double x = vin_f64(); VASSUME(x >= LO && x < HI);
+  if (FLOATREP) VASSUME((double)(float)x == x); else VASSUME((double)(float)x != x);
+  uint8_t buf[32]; w_ser_f64(x, buf, 32);
+  check_digits(x, 1e-9); VWITNESS("any");
+}
+void h_ser_f32(void) {
+  float x = vin_f32(); VASSUME((double)x >= LO && (double)x < HI);
+  uint8_t buf[32]; w_ser_f32(x, buf, 32);
+  check_digits((double)x, 1e-6); VWITNESS("any");
+}
